@@ -107,6 +107,7 @@ Proof.
   all: try (apply kept_setpc; [exact Hne|]; apply kept_sem_add; exact G).
   all: try (apply kept_next_stage; exact Hne).
   all: try (apply kept_leave_wait; assumption).
+  - apply kept_setpc; [exact Hne|]. apply kept_same. autorewrite with fld. sp. reflexivity.
   - apply kept_setpc; [exact Hne|]. apply kept_resize, G.
   - match goal with E : retain_loop ?t ?ds (vec s) s = (?s1, ?kept0, ?rem) |- _ =>
       pose proof (retain_loop_effect t ds (vec s) s) as R; rewrite E in R;
@@ -120,5 +121,4 @@ Proof.
       * constructor.
       * intros Hq. contradiction.
       * reflexivity.
-  - apply kept_setpc; [exact Hne|]. apply kept_same. autorewrite with fld. sp. reflexivity.
 Qed.
